@@ -208,10 +208,22 @@ class _BaseLayout(MaildirLayout[_MaildirT], metaclass=ABCMeta):
         parts = self._split(name, delimiter)
         if os.path.isdir(self._get_path(parts)):
             raise FileExistsError(name)
+        self._check_name(parts)
         for i in range(1, len(parts)):
             if not os.path.isdir(self._get_path(parts[0:i])):
                 self._add_folder(parts[0:i])
         self._add_folder(parts)
+
+    def _check_name(self, parts: _Parts) -> None:
+        # raises before anything is created or moved
+        path = os.fsencode(self._get_path(parts))
+        rel_path = os.path.relpath(path, os.fsencode(self._path))
+        name_max = os.pathconf(self._path, 'PC_NAME_MAX')
+        path_max = os.pathconf(self._path, 'PC_PATH_MAX')
+        if len(path) + len('/cur/') + name_max >= path_max \
+                or any(len(part) > name_max
+                       for part in rel_path.split(os.fsencode(os.sep))):
+            raise OSError(errno.ENAMETOOLONG, os.strerror(errno.ENAMETOOLONG))
 
     def _add_folder(self, parts: _Parts) -> None:
         path = self._get_path(parts)
@@ -238,6 +250,8 @@ class _BaseLayout(MaildirLayout[_MaildirT], metaclass=ABCMeta):
                       delimiter: str) -> None:
         source_parts = self._split(source_name, delimiter)
         dest_parts = self._split(dest_name, delimiter)
+        for parts in list(self._list_folders(source_parts)):
+            self._check_name(dest_parts + parts[len(source_parts):])
         for i in range(1, len(dest_parts)):
             parts = dest_parts[0:i]
             path = self._get_path(parts)
